@@ -44,6 +44,7 @@ def renderErr : Option Err → String
   | some .missing => "err:missing"
   | some .io => "err:io"
   | some .other => "err:other"
+  | some .conflict => "err:conflict"
 
 def parseRes : String → Option (Option Err)
   | "ok" => some none
@@ -51,6 +52,7 @@ def parseRes : String → Option (Option Err)
   | "err:missing" => some (some .missing)
   | "err:io" => some (some .io)
   | "err:other" => some (some .other)
+  | "err:conflict" => some (some .conflict)
   | _ => none
 
 def parseOp (ts : List String) : Option Op :=
@@ -93,7 +95,6 @@ structure St where
   kv : KV := []
   m : Abs := []
   illFormed : Bool := false     -- an ill-formed object (or configuration) has been stored
-  uniqViol : Bool := false      -- two stored objects shared a value of a unique index
   prevDump : Option String := none
   dumpValid : Bool := false     -- no successful mutation since `prevDump`
   maxStored : Nat := 0
@@ -110,7 +111,6 @@ whose predicted (model) output is exactly what was observed. -/
 def classify (st : St) (clause detail : String) (modelAgrees0 : Bool) (orderOnly : Bool) : Verdict :=
   let modelAgrees := modelAgrees0 && st.mm.isNone
   if modelAgrees && st.illFormed then .known "path-clean-keys" s!"{clause} {detail}"
-  else if modelAgrees && st.uniqViol then .known "unique-index-no-check" s!"{clause} {detail}"
   else if modelAgrees && orderOnly then .known "index-order-separator" s!"{clause} {detail}"
   else .specfail clause detail
 
@@ -124,15 +124,23 @@ def opBranches (st : St) (op : Op) (res : Option Err) : List String :=
         if indexKey c i.name (i.valueOf old) != indexKey c i.name (i.valueOf o) then "idx-key-changed" else "idx-key-same"))
     | .error .missing => [s!"{name}-absent"]
     | .error _ => [s!"{name}-undecodable"]
+  -- the uniqueness check of putTx (reached only past the exists/replace rules)
+  let uniqBr (o : Obj) : List String :=
+    if res == some .exists_ || res == some .missing then [] else
+    let sec := c.indexes.filter (fun i => i.unique && i.sel != .id)
+    (if uniqueConflict c st.kv o then ["unique-conflict"] else []) ++
+    (if sec.any (fun i => kvGet st.kv (indexKey c i.name (i.valueOf o)) == some (.ref o.id)) then ["unique-secondary-own-entry"] else []) ++
+    (if sec.any (fun i => kvGet st.kv (indexKey c i.name (i.valueOf o)) == none) then ["unique-secondary-free"] else []) ++
+    (if sec.any (fun i => heldByOther (kvGet st.kv (indexKey c i.name (i.valueOf o))) o.id) then ["unique-secondary-held-by-other"] else [])
   let f := match op.fault, res with
     | .none, _ => []
     | .write n, some .io => [s!"fault-write-hit-{min n 4}"]
     | .commit, some .io => ["fault-commit-hit"]
     | _, _ => ["fault-not-reached"]
   f ++ match op with
-  | .create o _ => putBr "create" o
-  | .put o _ => putBr "put" o
-  | .replace o _ => putBr "replace" o
+  | .create o _ => putBr "create" o ++ uniqBr o
+  | .put o _ => putBr "put" o ++ uniqBr o
+  | .replace o _ => putBr "replace" o ++ uniqBr o
   | .delete id _ => (match getTx c st.kv id with | .ok _ => ["delete-present"] | .error .missing => ["delete-absent"] | _ => ["delete-undecodable"])
   | .rebuild _ => [if st.kv.isEmpty then "rebuild-empty" else "rebuild-nonempty"]
   | .reopen => ["reopen"]
@@ -144,6 +152,11 @@ def listBranches (st : St) (i : Index) (pat : Str) (off lim : Int) (rev : Bool) 
   [if i.unique then "list-unique-index" else "list-composite-index"] ++
   (if rev then ["list-reverse"] else []) ++
   (if pat != [] then ["list-pattern"] else []) ++
+  (if pat.contains '/' then [if rev then "list-slash-pattern-reverse" else "list-slash-pattern"] else []) ++
+  (if pat.contains '/' && matched > 0 then ["list-slash-pattern-matches"] else []) ++
+  (if (pat.contains '*' || pat.contains '?') && !pat.contains '/' &&
+      ((indexIds st.cfg st.kv i.name false).filterMap id).any (fun x => x.contains '/' && !matchFn pat x) then ["list-wildcard-stops-at-slash"] else []) ++
+  (if rev && ((indexIds st.cfg st.kv i.name false).filterMap id).any (fun x => x.contains '/') then ["list-reverse-multiseg-ids"] else []) ++
   (if lim < 0 then ["list-nolimit"] else if lim == 0 then ["list-limit0"] else []) ++
   (if lim ≥ 0 && off + lim > n then ["list-upper-clamped"] else []) ++
   (if lim > 0 && matched > off + lim then ["list-page-cut"] else []) ++
@@ -156,7 +169,7 @@ def stateBranches (st : St) : List String :=
   (if st.m.any (fun a => st.m.any (fun b => a.id != b.id && a.id.isPrefixOf b.id)) then ["id-prefix-of-id"] else []) ++
   (if st.cfg.indexes.any (fun i => lowSepDev i st.m) then ["low-separator-values"] else []) ++
   (if st.illFormed then ["ill-formed-stored"] else []) ++
-  (if st.uniqViol then ["unique-value-shared"] else [])
+  (if st.m.length ≥ 2 && st.cfg.indexes.any (fun i => i.unique && i.sel != .id) then ["unique-secondary-two-stored"] else [])
 
 def judge (_id : String) (lines : Array String) : Verdict := Id.run do
   let mut st : St := {}
@@ -223,10 +236,13 @@ def judge (_id : String) (lines : Array String) : Verdict := Id.run do
         st := addBrs st (opBranches st op res)
         let (kv', mres) := step st.cfg st.kv op
         let hadBucket := st.kv.any (fun e => e.2 == .bucket)
-        match (if st.foreign then some (if res == none then (specApply st.m op).1 else st.m) else specStep st.m op res) with
+        match (if st.foreign then some (if res == none then (specApply st.cfg st.m op).1 else st.m) else specStep st.cfg st.m op res) with
         | none =>
-          let (_, r) := specApply st.m op
-          return classify st "operation-result" s!"{" ".intercalate opT}: spec {renderErr r} observed {renderErr res}" (res == mres) false
+          let (_, r) := specApply st.cfg st.m op
+          -- the object handed in by THIS call may be the ill-formed one (e.g. its cleaned index key is the entry of
+          -- another object: the uniqueness check rejects it although the values differ)
+          let opIll := match op.obj? with | some o => !st.cfg.wfObj o | none => false
+          return classify { st with illFormed := st.illFormed || opIll } "operation-result" s!"{" ".intercalate opT}: spec {renderErr r} observed {renderErr res}" (res == mres) false
         | some m' =>
           if res != mres && st.mm.isNone then
             st := { st with mm := some s!"{" ".intercalate opT}: model {renderErr mres} observed {renderErr res}" }
@@ -239,13 +255,15 @@ def judge (_id : String) (lines : Array String) : Verdict := Id.run do
             match op with
             | .delete _ _ => if (absGet st.m (match op with | .delete id _ => id | _ => [])).isSome then st := { st with interesting := true }
             | _ => pure ()
-          if (opBranches st op res).any (fun b => b == "idx-key-changed" || b.startsWith "fault-write-hit" || b == "fault-commit-hit") then
+          if (opBranches st op res).any (fun b => b == "idx-key-changed" || b.startsWith "fault-write-hit" || b == "fault-commit-hit" || b == "unique-conflict") then
             st := { st with interesting := true }
           if st.foreign && mres == some .other then st := addBr st "foreign-bucket-blocks-write"
           if hadBucket && !(kv'.any (fun e => e.2 == .bucket)) then st := addBr st "foreign-bucket-deleted-by-store"
           st := { st with kv := kv', m := m', dumpValid := st.dumpValid && !committed,
                           maxStored := max st.maxStored m'.length }
-          if !uniqueOK st.cfg st.m then st := { st with uniqViol := true }
+          -- the spec's own successor state keeps the unique indexes unique (theorem unique_indexes_stay_unique);
+          -- checked here on every run as well
+          if !uniqueOK st.cfg st.m then return .specfail "unique-index-stays-unique" s!"{" ".intercalate opT}: two stored objects share a value of a unique index"
           st := addBrs st (stateBranches st)
       | none => return .badop l
   match st.mm with
